@@ -106,6 +106,30 @@ func c18(r *engine.Report, p *engine.Program) {
 	r.Check("R2-relay", "handleServiceAdvertisement: relay excludes the receiving connection and forwards the received bytes", relay.Pos(),
 		relay.Common().Args[2] == ssa.Value(hsa.Params[2]) && relay.Common().Args[1] == ssa.Value(hsa.Params[1]),
 		"flood(data, receivedFrom) with the function's own parameters", "the relay does not exclude the connection the record came from, or re-encodes it")
+	// R2b every accepted record is relayed: from each table write, every path to a return passes the relay
+	{
+		isRelay := func(in ssa.Instruction) bool { return in == ssa.Instruction(relay) }
+		var miss ssa.Instruction
+		for _, w := range effects {
+			if h := engine.Reach(hsa, w, nil, isRelay, func(in ssa.Instruction) bool { _, ok := in.(*ssa.Return); return ok }); h != nil {
+				miss = w
+			}
+		}
+		r.Check("R2-relay", "handleServiceAdvertisement: every record that changes the table is relayed", relay.Pos(), miss == nil,
+			fmt.Sprintf("from each of the %d table updates every path to a return passes flood(): periodic refreshes travel hop by hop, which is how late joiners behind a relay learn a service", len(effects)),
+			"after the table update "+descInstr(p, miss)+" a return is reachable without relaying the record: nodes behind this one never learn (or never refresh) the service")
+	}
+	// R1b test and update are one serviceAdsLock write section
+	if held != nil {
+		reads := []ssa.Instruction{held}
+		if after != nil {
+			reads = append(reads, after)
+		}
+		ok, why := atomicSection(p, hsa, adsLock, reads, effects)
+		r.Check("R1-atomic", "handleServiceAdvertisement: newer-than test + table update in one serviceAdsLock write section", held.Pos(), ok,
+			fmt.Sprintf("the held-entry lookup, the Time.After comparison and the %d table updates all run under the serviceAdsLock write lock with no release in between", len(effects)),
+			why+" — two copies of different age arriving on two links can both pass the test and the older one can be written last")
+	}
 	// R3 nil check (shared with C07-O2)
 	targets := decodeTargets(p, []*ssa.Function{hsa})
 	nilFieldObligations(r, p, "R3-nil-body", []*ssa.Function{hsa}, targets)
